@@ -165,7 +165,7 @@ Reply(x, status, st, lr) ==
           /\ lr => (ct.leader /\ ct.kind = "get")
           /\ (~fromStore /\ ~vanished) => nextX + nfol <= MaxX + 1
           /\ contacts' = [y \in 1..MaxX |->
-                 IF y = x THEN (IF vanished THEN OpenX(c, r, ct.kind, ct.leader, FALSE, NoEntry)
+                 IF y = x THEN (IF vanished THEN [OpenX(c, r, ct.kind, ct.leader, FALSE, NoEntry) EXCEPT !.oc = ct.oc]
                                 ELSE IF refetch /\ c # 0 THEN OpenX(c, r, "get", FALSE, FALSE, NoEntry)
                                 ELSE NoContact)
                  ELSE IF ~fromStore /\ ~vanished /\ (\E d \in fol : y = nextX + Rank(fol, d))
